@@ -222,11 +222,12 @@ def gen_scenario(seed, focus="C20"):
     # interpreter whose string-hash seed the scheduler picks (everything else forks from one interpreter, seed 0).
     # Those projects also carry docstrings that mention names the signature no longer has - the classic input on which
     # an order taken from a set shows.
-    procs = focus == "C10" and ch.chance("processes", 0.05)
+    procs = ch.chance("processes", 0.05 if focus == "C10" else 0.02)
     if procs:
         knobs["processes"] = "spawn"
         for rel in proj.by_kind["function"]:
-            if ch.chance("stale." + rel, 0.7):
+            # (stale names only where the oracles of the focus property have no opinion about them)
+            if focus == "C10" and ch.chance("stale." + rel, 0.7):
                 proj.files[rel]["style"]["stale"] = ch.sample("stalenames." + rel, ["legacy_mode", "verbose", "cache_dir", "retries", "timeout_s"], ch.int("nstale." + rel, 2, 4))
     truth0 = ch.choice("truth0", KINDS)
     files, states = initial_states(proj, ch, truth0, focus)
